@@ -167,25 +167,63 @@ const STRS: &[&str] = &["", "A", "BC", "ｱ", "あ", "ソ", "表", "Hello", "AB"
     "xアニメーションのなまえがとてもながいばあいのてすとアニメーションのなまえがとてもながい",
     "uEAnim_M_ch100_non_0123456789_abcdefghijklmnopqrstuvwxyz_ABCDEFGHIJKLMNOPQRSTUVWXYZ_0123456789_abcdefghijklmnopqrstuvwxyz_ABCDEFGH_表表表"];
 
-fn random_content(rng: &mut Rng, maxcells: usize, allow_cstr: bool) -> Value {
+/// STRS plus (with `long_k` = k) ONE string whose Shift-JIS encoding has a double-byte character straddling offset k
+/// (k-1 single bytes, then kana): readers that work in blocks of k bytes must not split a character.  k cycles over the
+/// powers of two from 64 to 512 (4096 in the thorough tier).
+fn str_pool(long_k: Option<usize>) -> Vec<String> {
+    let mut v: Vec<String> = STRS.iter().map(|s| s.to_string()).collect();
+    if let Some(k) = long_k {
+        let mut s = String::new();
+        for i in 0..k - 1 {
+            s.push((b'a' + (i % 26) as u8) as char);
+        }
+        s.push_str("あソ表");
+        v.push(s);
+    }
+    v
+}
+
+/// `variety`: None = word-aligned cells, short strings (state-machine archives); Some(i) = the i-th content of a format
+/// run: every fifth has its cells off the word grid, every sixth carries one long straddling string (k cycles)
+fn random_content(rng: &mut Rng, maxcells: usize, allow_cstr: bool, variety: Option<usize>) -> Value {
     let endian = if rng.chance(1, 2) { "le" } else { "be" };
-    let cells = rng.below(maxcells + 1);
+    let label_heavy = variety.map(|i| i % 7 == 6).unwrap_or(false);
+    let cells = if label_heavy { maxcells } else { rng.below(maxcells + 1) };
     let extra = if rng.chance(1, 4) { rng.range(1, 3) } else { 0 }; // unaligned tail
     let size = cells * 4 + extra;
     let data = rng.bytes(size);
     let (mut text, mut ptrs, mut cstr) = (vec![], vec![], vec![]);
+    let long_k = match variety {
+        Some(i) if i % 6 == 5 => Some(64usize << ((i / 6) % if tier_is_quick() { 4 } else { 7 })),
+        _ => None,
+    };
+    let pool = str_pool(long_k);
     let nstr = rng.range(1, STRS.len());
+    // the API takes any byte address: now and then all annotated cells sit off the word grid (still non-overlapping)
+    let delta = if variety.map(|i| i % 5 == 4).unwrap_or(false) { rng.range(1, 3) } else { 0 };
     for cidx in 0..cells {
-        let a = cidx * 4;
+        let a = cidx * 4 + delta;
+        if a + 4 > size {
+            continue;
+        }
         match rng.below(10) {
-            0 | 1 => text.push(json!([a, string_to_sjis(STRS[rng.below(nstr)]).unwrap()])),
+            0 | 1 => text.push(json!([a, string_to_sjis(&pool[rng.below(nstr)]).unwrap()])),
             2 | 3 => ptrs.push(json!([a, if rng.chance(1, 5) { size } else { rng.below(size + 1) }])),
-            4 if allow_cstr => cstr.push(json!([a, string_to_sjis(STRS[rng.below(nstr)]).unwrap()])),
+            4 if allow_cstr => cstr.push(json!([a, string_to_sjis(&pool[rng.below(nstr)]).unwrap()])),
             _ => {}
         }
     }
     let mut laddrs: Vec<usize> = Vec::new();
-    let nl = rng.below(cells + 2);
+    // every seventh content of a format run is label-heavy: (almost) every address labelled, several names each
+    let many_labels = label_heavy;
+    if many_labels {
+        for a in 0..=size {
+            if a % 4 == 0 || rng.chance(1, 6) {
+                laddrs.push(a);
+            }
+        }
+    }
+    let nl = if many_labels { 0 } else { rng.below(cells + 2) };
     for _ in 0..nl {
         let a = match rng.below(6) {
             0 => size,
@@ -203,17 +241,38 @@ fn random_content(rng: &mut Rng, maxcells: usize, allow_cstr: bool) -> Value {
         .iter()
         .enumerate()
         .map(|(i, a)| {
-            let k = if rng.chance(1, 4) { 2 } else { 1 };
+            let k = if many_labels { rng.range(1, 4) } else if rng.chance(1, 4) { 2 } else { 1 };
             let names: Vec<Value> = (0..k)
                 .map(|j| {
-                    let s = if distinct_names && j == 0 { format!("L{:03}", i) } else { STRS[rng.below(STRS.len())].to_string() };
+                    let s = if distinct_names && j == 0 { format!("L{:03}", i) } else { pool[rng.below(pool.len())].clone() };
                     json!(string_to_sjis(&s).unwrap())
                 })
                 .collect();
             json!([a, names])
         })
         .collect();
-    json!({"endian": endian, "data": data, "text": text, "ptrs": ptrs, "labels": labels, "cstr": cstr})
+    let mut content = json!({"endian": endian, "data": data, "text": text, "ptrs": ptrs, "labels": labels, "cstr": cstr});
+    // the long string is used at least once: as a string, a label name or a c-string in turn
+    if let (Some(_), Some(i)) = (long_k, variety) {
+        let long = json!(string_to_sjis(pool.last().unwrap()).unwrap());
+        let order = [["text", "labels", "cstr"], ["labels", "cstr", "text"], ["cstr", "text", "labels"]][(i / 6) % 3];
+        let mut placed = false;
+        for key in order {
+            if !content[key].as_array().unwrap().is_empty() {
+                if key == "labels" {
+                    content[key][0][1][0] = long.clone();
+                } else {
+                    content[key][0][1] = long.clone();
+                }
+                placed = true;
+                break;
+            }
+        }
+        if !placed {
+            content["labels"] = json!([[0, [long]]]);
+        }
+    }
+    content
 }
 
 fn format_event(content: &Value, from_api: bool) -> Value {
@@ -267,6 +326,12 @@ fn big_event(endian: &str, cells: usize, every_text: usize, every_ptr: usize, ev
             if every_label > 0 && c % every_label == 0 {
                 a.write_label(addr, &format!("L{:06}", c)).map_err(|e| e.to_string())?;
                 nl += 1;
+                // every fifth labelled address carries a second and third name (their order is part of the content)
+                if c % 5 == 0 {
+                    a.write_label(addr, &format!("Z{:06}", c)).map_err(|e| e.to_string())?;
+                    a.write_label(addr, &format!("A{:06}", c)).map_err(|e| e.to_string())?;
+                    nl += 2;
+                }
             }
         }
         let before = project(&a, endian);
@@ -293,8 +358,8 @@ fn format_record(out_path: &str, n: usize, maxcells: usize) {
     out.put(&big_event("le", 66_000, 3, 3, 1));        // 66 000 labels + mixed cells
     out.put(&big_event("be", 65_537, 2, 2, 2));
     for i in 0..n {
-        let mc = if i % 10 == 9 { maxcells } else { 1 + (i % 12).min(maxcells) };
-        let content = random_content(&mut rng, mc, i % 3 != 0);
+        let mc = if i % 10 == 9 || i % 7 == 6 { maxcells } else { 1 + (i % 12).min(maxcells) };
+        let content = random_content(&mut rng, mc, i % 3 != 0, Some(i));
         out.put(&format_event(&content, true));
     }
     out.finish();
@@ -789,6 +854,15 @@ fn random_session(rng: &mut Rng, p: &Value, focus: &str) -> Value {
                 1 => ev("s_write_pointer", 0, 0, false, json!([]), rng.below(sz as usize + 1) as i64, ""),
                 _ => ev("s_write_c_string", 0, 0, false, nm, 0, ""),
             });
+        } else if r < 73 && writer {
+            // the same cell written twice with values that are equal as numbers but not as bits (+0.0 / -0.0)
+            let a = 4 * rng.below((sz / 4).max(1) as usize) as i64;
+            let first = if rng.chance(1, 2) { 0x80 } else { 0 };
+            hi = false;
+            steps.push(ev("seek", a, 0, false, json!([]), 0, ""));
+            steps.push(ev("s_write_val", 0, 4, false, json!([first, 0, 0, 0]), 0, "f"));
+            steps.push(ev("seek", a, 0, false, json!([]), 0, ""));
+            steps.push(ev("s_write_val", 0, 4, false, json!([first ^ 0x80, 0, 0, 0]), 0, "f"));
         } else if r < 76 {
             steps.push(ev("s_write_label", 0, 0, false, bytes_to_json(names[rng.below(3)]), 0, ""));
         } else if r < 80 {
@@ -896,6 +970,8 @@ fn random_event(rng: &mut Rng, p: &Value, focus: &str) -> Value {
                 let mut d = rng.bytes(w as usize);
                 if rng.chance(1, 4) && w == 4 {
                     d = vec![0x7f, 0xc0 | (rng.next() as u8 & 0x3f), rng.next() as u8, 1]; // NaN payloads
+                } else if rng.chance(1, 5) && w == 4 {
+                    d = vec![if rng.chance(1, 2) { 0x80 } else { 0 }, 0, 0, 0]; // +0.0 / -0.0 (and 0 / i32::MIN)
                 }
                 ev(&pre("write_val"), baddr(rng), w, false, bytes_to_json(&d), 0, ty)
             }
@@ -942,7 +1018,7 @@ fn random_event(rng: &mut Rng, p: &Value, focus: &str) -> Value {
 }
 
 fn sm_initial(rng: &mut Rng, focus: &str, maxcells: usize) -> (BinArchive, String) {
-    let mut content = random_content(rng, maxcells, focus == "c03");
+    let mut content = random_content(rng, maxcells, focus == "c03", None);
     if focus == "c03" {
         // structural operations are about cell-aligned archives
         let n = content["data"].as_array().unwrap().len() / 4 * 4;
